@@ -587,8 +587,26 @@ impl Relations {
             .map(|e| e.wrap_and_sort())
             .collect::<Vec<_>>();
         entries.sort();
+        // Substitution variables are kept, after the sorted entries
+        let mut substvars = self
+            .0
+            .children()
+            .filter(|n| n.kind() == SUBSTVAR)
+            .collect::<Vec<_>>();
+        substvars.sort_by_key(|n| n.text().to_string());
         // TODO: preserve comments
-        Self::from(entries)
+        let mut builder = GreenNodeBuilder::new();
+        builder.start_node(ROOT.into());
+        let items = entries.into_iter().map(|e| e.0).chain(substvars);
+        for (i, item) in items.enumerate() {
+            if i > 0 {
+                builder.token(COMMA.into(), ",");
+                builder.token(WHITESPACE.into(), " ");
+            }
+            inject(&mut builder, item);
+        }
+        builder.finish_node();
+        Relations(SyntaxNode::new_root_mut(builder.finish()))
     }
 
     /// Iterate over the entries in this relations field
